@@ -13,13 +13,18 @@ CHECKS = {
     'C01': ('real join executions judged for completeness by an independent reference model: W1 '
             'constructed worst-case tables (least qualifying overlap, shared tokens last in the global '
             'order) for every size pair up to N per (measure, threshold), W2 every token arrangement '
-            'of small sets at every separating threshold, W3 random hostile tables, contract-steered '
-            'witnesses for sizes up to 1000',
+            'of small sets at every separating threshold, W3 random hostile tables, W4 thresholds that are '
+            'the exact score of sets up to 64 tokens, records of up to 140 000 tokens, planted tables of '
+            '1100-9000 rows, records whose token ranks are congruent modulo 64..2048, ambiguous token sets, '
+            'a shard under python -O, contract-steered witnesses for sizes up to 1000; a deterministic '
+            'sample of the calls gets used-before frames, positional arguments and real worker processes',
             'boundary reference-model oracle over constructed worst-case + exhaustive-small + random executions; icontract contracts on the bound formulas steer witnesses'),
     'C02': ('every output row of real join executions judged for soundness, uniqueness, key existence '
             'and exact score by the reference model, on random tables (all projections, NaN rows, '
             'n_jobs), near-miss tables (one token short of qualifying for every size pair) and all '
-            'small arrangements with all three operators',
+            'small arrangements with all three operators, exact-score thresholds, rare-shared-token tables '
+            'with and without the score column, planted large tables, uint64 keys (open finding F14 '
+            'classified by mechanism), colliding output labels',
             'boundary reference-model oracle on every output row (soundness / once / score)'),
     'C03': ('real edit_distance_join executions judged by an own Levenshtein DP: exhaustive string '
             'universes over small alphabets on both sides for every (q, padding, set/bag mode, '
@@ -36,7 +41,10 @@ CHECKS = {
     'C05': ('real apply_matcher executions replayed row by row with the same similarity function on '
             'freshly tokenised values: identical row sequence, _id, keys, projection and score for '
             'all six operators, thresholds on attained scores, missing values, cached and uncached '
-            'token paths (forced by padding), n_jobs 1..64 and -1, threading and loky backends',
+            'token paths (forced by padding), n_jobs 1..64 and -1, threading, loky and multiprocessing '
+            'backends; similarity functions incl. signed, NaN-returning, order-sensitive and slow user '
+            'functions and configured measure objects; numeric / datetime match attributes; thresholds a '
+            'few ulps next to attained scores, Fraction / Decimal thresholds; repeated ids and pairs',
             'boundary replay oracle (row-by-row reference evaluation) + metamorphic cache/n_jobs variants; call counter proves both cache paths ran'),
     'C06': ('filter_candset output compared with the positional selection computed from the same '
             'filter object\'s filter_pair for all five filters, all measures, random candidate sets, '
@@ -61,7 +69,9 @@ CHECKS = {
             '(threading backend with injected per-job delays, loky sample), presentation variants '
             '(row permutation, index relabelling, extra columns, repeated call), digests of a fixed '
             'case list across processes with four PYTHONHASHSEEDs, _id numbering, dispatch trace of '
-            'the chunks handed to jobs, split_table driven exhaustively under its partition contract',
+            'the chunks handed to jobs, split_table driven exhaustively under its partition contract; tables '
+            'of frequency ties and EVERY row order of small tables, SizeFilter count grids under n_jobs, '
+            'planted tables of 1100-4100 rows, the multiprocessing backend with configured measure objects',
             'metamorphic schedule/presentation monitors + joblib dispatch trace + exhaustive split_table contract'),
     'C11': ('columns compared with an independent implementation of the documented rule and every '
             'projected cell compared with the source row found through the key, for all joins and '
@@ -71,29 +81,38 @@ CHECKS = {
     'C12': ('histories of 6-16 calls over shared DataFrames and shared tokenizers (incl. the default '
             'tokenizer object of edit_distance_join, re-classed to a traced tokenizer): deep input '
             'snapshots around every call, tokenizer configuration compared on normal return with flag '
-            'flips counted, every result compared with the same call in isolation on fresh objects',
-            'history monitor: deep snapshots + tokenizer trace + isolated re-execution'),
+            'flips counted, every result compared with the same call in isolation on fresh objects; process-'
+            'wide state (pandas options, numpy, RNGs, cwd, environment) and the library''s module-level '
+            'state compared around every call, fresh-process re-execution once module state changed; used '
+            'filter objects compared with fresh ones',
+            'history monitor: deep snapshots + tokenizer trace + global / module state monitors + isolated and fresh-process re-execution'),
     'C13': ('transposition, threshold refinement and operator partition checked on random tables, edit '
             'distance neighbourhoods, the bundled person data and samples of the bundled books data '
-            '(thorough: 8000-row Zipf tables); straddling / both-empty pairs excluded lazily by the model',
+            '(thorough: 3500-row Zipf tables), exact-score, rare-shared-token (with and without the score '
+            'column), structured-rank, ambiguous-token and ubiquitous-token (> 2**14 rows) tables; '
+            'straddling / both-empty pairs excluded lazily by the model',
             'metamorphic relations between related real executions'),
     'C14': ('exhaustive size characterisation (every count pair <= N at every grid threshold for '
             'JACCARD/COSINE/DICE; every string-length pair for EDIT_DISTANCE x k x q x padding) through '
             'filter_tables and filter_pair with two different token assignments; no-common-token and '
-            'Position ⊆ Prefix, Size refinement on random tables for all measures',
+            'Position ⊆ Prefix, Size refinement on random tables for all measures and on containment pairs a '
+            'relative 1e-6..1e-4 next to the size boundary',
             'exhaustive grid oracle for SizeFilter + boundary oracles for no-common-token and refinement'),
     'C15': ('the complete rejection matrix (entry point x applicable invalid argument kind) with random '
             'valid contexts: documented exception class, no tokenize() before rejection (traced '
             'tokenizer), arguments and tokenizer configuration unchanged; acceptance of every entry '
-            'point on 25 degenerate shape combinations x dtype x allow_missing x n_jobs',
+            'point on 25 degenerate shape combinations x dtype x allow_missing x n_jobs, numpy-typed, float '
+            'and boundary thresholds; one rejection shard under python -O; open finding F15 (flagged frame '
+            'whose key is its join attribute) classified by mechanism',
             'enumerated rejection/acceptance matrix with tokenizer trace and argument snapshots'),
     'C16': ('series_to_str / dataframe_column_to_str compared with a reference conversion for every '
             '(column kind, NaN pattern, inplace, return_col) combination with input snapshots; the '
             'in-place conversion of a bare numeric Series under pandas 3 is an open known finding',
             'boundary reference-conversion oracle over an enumerated combination matrix'),
     'C17': ('profile rows compared with independent counts, parsed percentages and comment rules on '
-            'small mixed-dtype tables and on 20 001..200 000-row tables with exactly one duplicate '
-            'and/or one or two missing values (the rounding regime)',
+            'small mixed-dtype tables (nullable, categorical, tz-aware, distinct NaN objects, sorted ids with '
+            'a repeated and a skipped id, unusual column labels) and on 20 001..200 000-row tables with '
+            'exactly one duplicate and/or one or two missing values (the rounding regime)',
             'boundary oracle with independent counts incl. the >20000-row rounding regime'),
 }
 
